@@ -217,3 +217,66 @@ func clVisitorShardStart(c *Ctx) {
 		}
 	}
 }
+
+// The shard pivots outlive the barrier bracket they were gathered in, so they
+// must be private copies (ptrToItem), never raw pointers into the store.
+func clVisitorPivotCopies(c *Ctx) {
+	p := c.P
+	fn := p.Func("nitro", "Nitro", "Visitor")
+	ptrToItem := p.Func("nitro", "Nitro", "ptrToItem")
+	newItem := p.Func("nitro", "Nitro", "newItem")
+	split := p.Func("skiplist", "Skiplist", "GetRangeSplitItems")
+	n := 0
+	for _, f := range WithAnon(fn) {
+		fi := p.Info(f)
+		if len(p.CallSites(f, split)) == 0 {
+			continue
+		}
+		for _, in := range fi.Instrs {
+			call, ok := in.(*ssa.Call)
+			if !ok || !isBuiltin(call, "append") {
+				continue
+			}
+			// append(pivotItems, v...) where the slice holds *Item
+			sl, ok := call.Type().Underlying().(*types.Slice)
+			if !ok {
+				continue
+			}
+			pt, ok := sl.Elem().(*types.Pointer)
+			if !ok || !types.Identical(pt.Elem(), p.Named("nitro", "Item")) {
+				continue
+			}
+			// the appended elements: stores into the varargs array
+			vs, ok := strip(call.Call.Args[1]).(*ssa.Slice)
+			if !ok {
+				continue
+			}
+			arr, ok := vs.X.(*ssa.Alloc)
+			if !ok {
+				continue
+			}
+			for _, r := range referrersOf(arr) {
+				ia, ok := r.(*ssa.IndexAddr)
+				if !ok {
+					continue
+				}
+				for _, rr := range referrersOf(ia) {
+					st, ok := rr.(*ssa.Store)
+					if !ok {
+						continue
+					}
+					n++
+					v := strip(st.Val)
+					okv := isNilConst(v)
+					if cc, isCall := v.(*ssa.Call); isCall && p.CallsAny(cc, ptrToItem, newItem) {
+						okv = true
+					}
+					c.Check(okv, f, st, "shard pivot kept beyond the barrier bracket is a private copy", "a raw pointer to a store item is kept as shard pivot after the barrier session that protected it was released: the item can be collected and freed while shards still compare against it (use-after-free; shard boundaries read garbage)")
+				}
+			}
+		}
+	}
+	if n == 0 {
+		undecidedf("Visitor: pivot list construction not found")
+	}
+}
